@@ -437,7 +437,8 @@ pub fn fold(enc: &'static Encoding, c: char) -> char {
 fn fork_decoder(spec: &DecSpec, calls: &[CallRec]) -> Decoder {
     let mut d = new_decoder(spec.enc, spec.bom);
     for c in calls {
-        let src = &spec.stream[c.consumed_before..c.consumed_before + c.src_len];
+        let g = crate::sink::Guard8::from(&spec.stream[c.consumed_before..c.consumed_before + c.src_len], 0);
+        let src = g.slice();
         if spec.form16 {
             let mut dst = vec![0u16; c.cap];
             if spec.repl {
